@@ -17,6 +17,16 @@ _orig_call = Interp.call
 def _call(self, f, args, kwargs, ctx):
     if isinstance(f, FftFunc):
         return self.stubs.call_fft(ctx, f, *args, **kwargs)
+    from .values import DType, SArr
+    from . import arrays as A
+    if isinstance(f, DType):
+        # np.float32(x) / dtype.type(x): conversion of a scalar or array to that dtype (model E: the value itself)
+        if len(args) != 1 or kwargs:
+            from .ctx import Unsupported
+            raise Unsupported("dtype constructor with other than one argument")
+        ctx.note("stub:NumPy scalar type called as a constructor = astype (model E)")
+        x = args[0]
+        return A.astype(ctx, x, f) if isinstance(x, SArr) else x
     return _orig_call(self, f, args, kwargs, ctx)
 
 
